@@ -521,6 +521,10 @@ class BinaryQuery(CompoundQuery):
     def apply(self, fn):
         return self.__class__(fn(self.a), fn(self.b))
 
+    def simplify(self, ixreader):
+        return self.__class__(self.a.simplify(ixreader),
+                              self.b.simplify(ixreader)).normalize()
+
     def field(self):
         f = self.a.field()
         if self.b.field() == f:
